@@ -206,7 +206,7 @@ class SymCtx:
         key = z3.simplify(Z(lo)).decl().get_id()
         if key not in done:
             done.add(key)
-            eng.rules_used.add("RUN-DECOMPOSITION (every index of a finite sequence lies in a maximal strictly decreasing run; run bounds as Skolem functions)")
+            eng.rules_used.add("RUN-DECOMPOSITION (every index of a finite sequence lies in a maximal strictly decreasing run; run bounds as Skolem functions; existence proved by lemma:run_decomposition_exists)")
             n = Z(self.len(t))
             jv, k, l = fresh("rj"), fresh("rk"), fresh("rl")
             L, H = Z(self.ghost("RUNLO", t, IntV(jv))), Z(self.ghost("RUNHI", t, IntV(jv)))
@@ -241,7 +241,7 @@ class SymCtx:
         non-empty finite sequence of integers has a maximal entry" (a fact about sequences, listed under
         rules_used), one per sequence."""
         def make(AM, at, n):
-            self.engine.rules_used.add("PREFIX-ARGMAX (every non-empty prefix of a finite sequence has a position of a maximal entry; Skolem function)")
+            self.engine.rules_used.add("PREFIX-ARGMAX (every non-empty prefix of a finite sequence has a position of a maximal entry; Skolem function; existence proved by lemma:prefix_argmax_exists)")
             jv, k = fresh("aj"), fresh("ak")
             self.engine.global_axioms.append(z3.ForAll([jv], z3.Implies(z3.And(jv >= 0, jv < n), z3.And(AM(jv) >= 0, AM(jv) <= jv)), patterns=[AM(jv)], qid="argmax-range"))
             pk = at(k)
@@ -251,11 +251,63 @@ class SymCtx:
         self._skolem_once("PAMAX", t, make)
         return self.ghost("PAMAX", t, j)
 
+    def rec_prefix_argmax(self, t, j):
+        """the RECURSIVELY DEFINED leftmost position of a maximal entry among t[0..j]:  r(0) = 0,
+        r(j+1) = j+1 if t[j+1] > t[r(j)] else r(j)  (a definition by well-founded recursion: conservative).
+        Used by the lemma that justifies PREFIX-ARGMAX."""
+        def make(R, at, n):
+            jv = fresh("rj")
+            self.engine.global_axioms.append(R(z3.IntVal(0)) == 0)
+            self.engine.global_axioms.append(z3.ForAll([jv], z3.Implies(jv >= 0, R(jv + 1) == z3.If(at(jv + 1) > at(R(jv)), jv + 1, R(jv))), patterns=[R(jv + 1)], qid="rec-argmax"))
+
+        self._skolem_once("RPAMAX", t, make)
+        return self.ghost("RPAMAX", t, j)
+
+    def rec_run_lo(self, t, j):
+        """RECURSIVELY DEFINED start of the maximal strictly decreasing run ending at (containing) j:
+        lo(0) = 0, lo(j+1) = lo(j) if t[j] > t[j+1] else j+1."""
+        def make(L, at, n):
+            jv = fresh("rj")
+            self.engine.global_axioms.append(L(z3.IntVal(0)) == 0)
+            self.engine.global_axioms.append(z3.ForAll([jv], z3.Implies(jv >= 0, L(jv + 1) == z3.If(at(jv) > at(jv + 1), L(jv), jv + 1)), patterns=[L(jv + 1)], qid="rec-runlo"))
+
+        self._skolem_once("RRUNLO", t, make)
+        return self.ghost("RRUNLO", t, j)
+
+    def rec_run_hi_from_end(self, t, d):
+        """RECURSIVELY DEFINED end (exclusive) of the maximal strictly decreasing run containing index n-1-d:
+        h(0) = n, h(d+1) = h(d) if t[n-2-d] > t[n-1-d] else n-1-d."""
+        def make(H, at, n):
+            dv = fresh("rd")
+            self.engine.global_axioms.append(H(z3.IntVal(0)) == n)
+            self.engine.global_axioms.append(z3.ForAll([dv], z3.Implies(dv >= 0, H(dv + 1) == z3.If(at(n - 2 - dv) > at(n - 1 - dv), H(dv), n - 1 - dv)), patterns=[H(dv + 1)], qid="rec-runhi"))
+
+        self._skolem_once("RRUNHI", t, make)
+        return self.ghost("RRUNHI", t, d)
+
+    def rec_first_greater_from_end(self, t, p, d):
+        """RECURSIVELY DEFINED: the first position >= len(t) - d with an entry larger than t[p], len(t) if there is
+        none:  g(p, 0) = n,  g(p, d+1) = n-d-1 if t[n-d-1] > t[p] else g(p, d).  Used by the lemma that justifies
+        NEXT-GREATER (next_greater(p) = g(p, n-p-1))."""
+        eng = self.engine
+        probe_p, probe_d = fresh("sp"), fresh("sd")
+        f = z3.simplify(Z(self.ghost("RNEXTGT", t, IntV(probe_p), IntV(probe_d)))).decl()
+        done = eng.__dict__.setdefault("_skolem_done", set())
+        if f.get_id() not in done:
+            done.add(f.get_id())
+            eng.__dict__.setdefault("_skolem_keep", []).append(f)
+            n = Z(self.len(t))
+            pv, dv = fresh("rp"), fresh("rd")
+            at = lambda x: Z(t[x])  # noqa: E731
+            eng.global_axioms.append(z3.ForAll([pv], f(pv, z3.IntVal(0)) == n, patterns=[f(pv, z3.IntVal(0))], qid="rec-nextgt-zero"))
+            eng.global_axioms.append(z3.ForAll([pv, dv], z3.Implies(dv >= 0, f(pv, dv + 1) == z3.If(at(n - dv - 1) > at(pv), n - dv - 1, f(pv, dv))), patterns=[f(pv, dv + 1)], qid="rec-nextgt-step"))
+        return self.ghost("RNEXTGT", t, p, d)
+
     def next_greater(self, t, p):
         """the first position after p with a larger entry than t[p], len(t) if there is none.  NEXT-GREATER:
         Skolem function of that (always existing, unique) position, one per sequence."""
         def make(NG, at, n):
-            self.engine.rules_used.add("NEXT-GREATER (first later position with a larger entry, or the length; Skolem function)")
+            self.engine.rules_used.add("NEXT-GREATER (first later position with a larger entry, or the length; Skolem function; existence proved by lemma:next_greater_exists)")
             pv, k = fresh("np"), fresh("nk")
             inr = z3.And(pv >= 0, pv < n)
             self.engine.global_axioms.append(z3.ForAll([pv], z3.Implies(inr, z3.And(NG(pv) > pv, NG(pv) <= n, z3.Or(NG(pv) == n, at(NG(pv)) > at(pv)))), patterns=[NG(pv)], qid="nextgt-range"))
@@ -642,6 +694,41 @@ class RunCtx:
         if not 0 <= j < len(t):
             return -10 ** 9
         return max(range(j + 1), key=lambda k: t[k])
+
+    def rec_run_lo(self, t, j):
+        t = tuple(t)
+        lo = 0
+        for k in range(0, j):
+            if not (k + 1 < len(t) and t[k] > t[k + 1]):
+                lo = k + 1
+        return lo
+
+    def rec_run_hi_from_end(self, t, d):
+        t = tuple(t)
+        n = len(t)
+        h = n
+        for e in range(0, d):
+            if not (0 <= n - 2 - e and t[n - 2 - e] > t[n - 1 - e]):
+                h = n - 1 - e
+        return h
+
+    def rec_first_greater_from_end(self, t, p, d):
+        t = tuple(t)
+        n = len(t)
+        g = n
+        for e in range(0, d):
+            k = n - e - 1
+            if 0 <= k < n and 0 <= p < n and t[k] > t[p]:
+                g = k
+        return g
+
+    def rec_prefix_argmax(self, t, j):
+        t = tuple(t)
+        r = 0
+        for k in range(1, j + 1):
+            if k < len(t) and t[k] > t[r]:
+                r = k
+        return r
 
     def next_greater(self, t, p):
         t = tuple(t)
